@@ -13,6 +13,7 @@ Needed(kd) == CASE kd \in {"value", "word", "aview", "sview", "xaview"} -> 0 [] 
 WaysOf(kd) == CASE kd = "aview" -> Ways \cup {"xfwd", "xfwdamp"}
                 \* (`gx(&q)` for q: &[]i32 is legal by the rule but panics the compiler -- finding F3 -- and is
                 \* kept as a cell of MC_Mutability (ctx argxp) only)
+                [] kd = "sptr" -> Ways \cup {"forward2"}
                 [] kd = "xaview" -> {"none", "read", "copy", "write", "xfwd", "xfwdamp"}
                 [] kd = "xsptr" -> {"none", "read", "copy", "write", "xfwdamp"}
                 [] OTHER -> Ways
